@@ -76,7 +76,7 @@ PushEnd == /\ eres # "" /\ todo = <<>> /\ eres' = "" /\ UNCHANGED <<sv, insH, in
 (* the miner loop's own step: walk to the ledger tip when it differs *)
 Tick == /\ eres = "" /\ UNCHANGED <<insH, insB, todo, eres>>
         /\ IF ptr = ltip THEN UNCHANGED vars ELSE Walk(ltip, FALSE, {"*"}, <<>>)
-ESubmit(t) == eres = "" /\ Submit(t) /\ UNCHANGED <<insH, insB, todo, eres>>
+ESubmit(t, r) == eres = "" /\ Submit(t, r) /\ UNCHANGED <<insH, insB, todo, eres>>
 EMine == eres = "" /\ Mine(GoodOrder(Packable)) /\ UNCHANGED <<insH, insB, todo, eres>>
 ERestart == eres = "" /\ Restart /\ insH' = 0 /\ insB' = 0 /\ UNCHANGED <<todo, eres>>
 
@@ -84,7 +84,7 @@ PushSeqs == UNION {[1..k -> {s \in TxSeqs : Len(s) <= 1}] : k \in 1..2}
 ENext ==
   \/ (Len(hist) < MaxOps /\ n < MaxBlocks - 2 /\ \E p \in 1..n, ss \in PushSeqs : PushBegin(p, ss, "ok"))
   \/ Micro \/ PushEnd
-  \/ (Len(hist) < MaxOps /\ (Tick \/ EMine \/ \E t \in Txs : ESubmit(t)))
+  \/ (Len(hist) < MaxOps /\ (Tick \/ EMine \/ \E t \in Txs : ESubmit(t, "*")))
 ESpec == EInit /\ [][ENext]_evars
 
 (* what the engine keeps: outside a push in progress the state machine is on the ledger's main chain or can reach
